@@ -169,12 +169,12 @@ impl Axecutor {
             .iter()
             .find(|area| {
                 // Start address is in range of memory area
-                area.start <= address && address < area.start + area.length
+                area.start <= address && address - area.start < area.length
             })
             .ok_or_else(|| self.collect_mem_error_hints(address, length, "Read".to_string()))?;
 
-        // Make sure it's in range before doing the slice access below
-        if address + length > area.start + area.length {
+        // Make sure it's in range before doing the slice access below (without overflowing for huge lengths)
+        if length > area.length - (address - area.start) {
             return Err(self.collect_mem_error_hints(address, length, "Read".to_string()));
         }
 
@@ -248,7 +248,7 @@ impl Axecutor {
             .state
             .memory
             .iter()
-            .find(|area| area.start <= address && address < area.start + area.length)
+            .find(|area| area.start <= address && address - area.start < area.length)
             .ok_or_else(|| {
                 self.collect_mem_error_hints(address, 15, "Read executable".to_string())
             })?;
@@ -389,7 +389,7 @@ impl Axecutor {
             .state
             .memory
             .iter_mut()
-            .find(|area| area.start <= address && address < area.start + area.length)
+            .find(|area| area.start <= address && address - area.start < area.length)
         {
             Some(area) => area,
             None => {
@@ -401,8 +401,8 @@ impl Axecutor {
             }
         };
 
-        // Range check before doing the copy_from_slice below
-        if address + data.len() as u64 > area.start + area.length {
+        // Range check before doing the copy_from_slice below (without overflowing near the end of the address space)
+        if data.len() as u64 > area.length - (address - area.start) {
             return Err(self.collect_mem_error_hints(
                 address,
                 data.len() as u64,
